@@ -48,7 +48,49 @@ def shards(tier, seed):
         out.append({'long': True, 'L': L})
     # end to end: the event table that comes with real site states (incl. overlapping site spheres, inner fraction 0.5)
     out.append({'e2e': True, 'tier': tier, 'seed': seed})
+    # end to end from geometry: every small history (shell-only visits included) concretised as a real trajectory and
+    # pushed through transitions_between_sites with inner fraction 0.5 (float radius and per-label radii)
+    for sh in traces.make_shards(E2E_TRACES[tier], 150 if tier == 'quick' else 600):
+        sh['e2e_trace'] = True
+        out.append(sh)
     return out
+
+
+E2E_TRACES = {'quick': [dict(A=1, S=3, Lmax=3), dict(A=2, S=2, Lmin=2, Lmax=2)], 'thorough': [dict(A=1, S=3, Lmax=4), dict(A=2, S=2, Lmax=3)]}
+
+
+def check_e2e_trace(trace, S):
+    from .. import concretise
+    from ..ref import geom
+    from .c04 import E2E_SITES
+
+    ref_rows = hop.change_log(trace)
+    if not ref_rows:
+        return [], ('nochange',)
+    Mx = geom.from_parameters(5, 6, 7, 70, 80, 100)
+    A = len(trace[0])
+    try:
+        coords = concretise.concretise(trace, Mx, np.array(E2E_SITES[:S]), [0.6] * S, 0.5, framework=[(0.31, 0.29, 0.33), (0.8, 0.15, 0.2)])
+    except concretise.Unrealisable:
+        return [], ('unrealisable',)
+    traj = concretise.make_trajectory(coords, ['Li'] * A + ['S', 'P'], Mx)
+    labels = ['A', 'B', 'A'][:S]
+    sites = concretise.make_sites(np.array(E2E_SITES[:S]), labels, Mx)
+    viols = []
+    o, i = hop.state_arrays(trace)
+    for rname, rad in (('float', 0.6), ('per-label', {'B': 0.6, 'A': 0.6})):
+        try:
+            tr = traj.transitions_between_sites(sites, 'Li', site_radius=rad if not isinstance(rad, dict) else dict(rad), site_inner_fraction=0.5)
+        except Exception as e:  # noqa: BLE001
+            shell_only = all(x % 2 == 0 for row in trace for x in row)
+            viols.append((f'building-from-a-trajectory-raises-{type(e).__name__}' + ('-no-atom-ever-in-an-inner-site' if shell_only else ''), f'{rname} radius: {e}'))
+            continue
+        if np.asarray(tr.states).tolist() != o or np.asarray(tr.inner_states).tolist() != i:
+            continue  # site assignment is C02's business; the table is compared with the states it was built from in the e2e shard
+        rows = impl.event_rows(tr.events)
+        if sorted(rows) != sorted(ref_rows):
+            viols.append(('events-from-a-trajectory-are-not-the-change-log', f'{rname} radius: got {sorted(rows)} expected {sorted(ref_rows)}'))
+    return viols, ('e2e-trace', tuple(ref_rows))
 
 
 def run_long(L, res):
@@ -201,6 +243,19 @@ def run_shard(shard) -> Result:
         res.transitions += n
         res.sample({'end_to_end_scenarios': n})
         return res
+    if shard.get('e2e_trace'):
+        for trace in traces.iter_shard(shard):
+            impl.clear_weak_caches()
+            viols, key = check_e2e_trace(trace, shard['S'])
+            res.evals += 1
+            res.traces += 1
+            res.outcome(hash(key))
+            for kind, detail in viols:
+                res.violation(kind, {'trace': trace, 'n_sites': shard['S'], 'e2e_trace': True}, detail)
+        res.states += traces.tree_nodes(shard)
+        res.transitions += traces.tree_nodes(shard)
+        res.stats['e2e_traces_from_geometry'] += res.traces
+        return res
     if shard.get('long'):
         run_long(shard['L'], res)
         res.sample({'long_history_frames': shard['L'], 'dtypes': ['int8', 'int16', 'int64']})
@@ -225,6 +280,8 @@ def run_shard(shard) -> Result:
 
 
 def replay(case):
+    if case.get('e2e_trace'):
+        return [{'kind': k, 'detail': d} for k, d in check_e2e_trace(case['trace'], case['n_sites'])[0]]
     if 'e2e_scenario' in case:
         from . import c02
 
